@@ -25,7 +25,8 @@ type scenario struct {
 	threads [][]coll.Op
 	// seqBlocked: some sequential order blocks forever on the real type (a self-deadlock, reported
 	// by the self-deadlock pass); the scenario is then skipped by the linearizability pass.
-	seqBlocked bool
+	seqBlocked     bool
+	nBlockedOrders int
 }
 
 func (s *scenario) String() string {
@@ -82,7 +83,10 @@ func (s *scenario) sequentialOutcomes() []seqOutcome {
 				}
 			}, 100000)
 			if blocked {
-				s.seqBlocked = true
+				// an order in which an operation blocks forever (a blocking Get on a queue that stays
+				// empty, or a self-deadlock) is not a legal linearization; the scenario is skipped only
+				// if no order at all completes
+				s.nBlockedOrders++
 				return
 			}
 			outs = append(outs, seqOutcome{order: append([]int{}, order...), results: res, dump: seqx.Dump(obj)})
@@ -97,6 +101,9 @@ func (s *scenario) sequentialOutcomes() []seqOutcome {
 		}
 	}
 	rec(make([]int, nth), nil)
+	if len(outs) == 0 {
+		s.seqBlocked = true
+	}
 	return outs
 }
 
@@ -150,7 +157,16 @@ func (s *scenario) check(cfg dfs.Config) (dfs.Stats, *dfs.Violation, map[string]
 				return "livelock: step cap hit"
 			}
 			if x.Deadlock {
-				return "deadlock: " + strings.Join(x.Blocked, ",")
+				onLock := false
+				for _, b := range x.Blocked {
+					if strings.HasSuffix(b, "@lock") {
+						onLock = true
+					}
+				}
+				if onLock || s.nBlockedOrders == 0 {
+					return "deadlock: " + strings.Join(x.Blocked, ",")
+				}
+				return "" // a blocking Get waiting on an empty queue: some sequential orders block the same way
 			}
 			for _, t := range x.Threads() {
 				if t.Panic != nil {
@@ -230,7 +246,7 @@ var pointOps = map[string]bool{
 	"GetNoWait": true, "PutForce": true, "Put1": true, "Put2": true, "PutForce1": true, "PutForce2": true, "Size1": true, "Size2": true,
 }
 
-var mutators = map[string]bool{"Put": true, "PutFirst": true, "PutLast": true, "Add": true, "AddFirst": true, "AddLast": true, "Remove": true, "RemoveFirst": true, "RemoveLast": true, "Clear": true,
+var mutators = map[string]bool{"Get": true, "Put": true, "PutFirst": true, "PutLast": true, "Add": true, "AddFirst": true, "AddLast": true, "Remove": true, "RemoveFirst": true, "RemoveLast": true, "Clear": true,
 	"GetNoWait": true, "PutForce": true, "Put1": true, "Put2": true, "PutForce1": true, "PutForce2": true, "GetLRU": true, "AddNoOver": true, "AddIfExist": true}
 
 // opsFor enumerates the point operations of a type over nk keys and nv values.
@@ -241,9 +257,7 @@ func opsFor(d *coll.Desc, nk, nv int, only map[string]bool) []coll.Op {
 		if !pointOps[m.Name] || (only != nil && !only[m.Name]) {
 			continue
 		}
-		if m.Name == "Get" && (d.Family == "queue" || d.Family == "dqueue") {
-			continue // blocking get: C11
-		}
+
 		sets := coll.ArgSets(d, obj, m, nk, nv)
 		for _, a := range sets {
 			ops = append(ops, coll.MkOp(m.Name, a...))
